@@ -8,3 +8,6 @@ import CC.Thm.C13
 #print axioms CC.Thm.C13.storage_views
 #print axioms CC.Thm.C13.source_portable_match
 #print axioms CC.Thm.C13.source_x86_match
+#print axioms CC.Thm.C13.eq_is_equality
+#print axioms CC.Thm.C13.eq128_s4_is_equality
+#print axioms CC.Thm.C13.source_eq_match
